@@ -23,15 +23,22 @@ def model(pattern):
 
 def lookup(callee):
     if callee in _CACHE: return _CACHE[callee]
-    norm = re.sub(r'^(?:\w+::)+(?=<impl )', '', callee)
-    for rx, f in _REG:
-        m = rx.fullmatch(norm)
-        if m:
-            if f.__code__.co_argcount == 3:
-                g = (lambda ex, args, f=f, m=m: f(ex, args, m)); g.__name__ = f.__name__
-            else: g = f
-            _CACHE[callee] = g
-            return g
+    norm = re.sub(r'^(?:[a-z_0-9]+::)+(?=<impl )', '', callee)
+    cands = [norm]
+    t = norm
+    while True:
+        m2 = re.match(r'[a-z_0-9]+::', t)
+        if not m2: break
+        t = t[m2.end():]; cands.append(t)
+    for cand in cands:
+        for rx, f in _REG:
+            m = rx.fullmatch(cand)
+            if m:
+                if f.__code__.co_argcount == 3:
+                    g = (lambda ex, args, f=f, m=m: f(ex, args, m)); g.__name__ = f.__name__
+                else: g = f
+                _CACHE[callee] = g
+                return g
     _CACHE[callee] = None
     return None
 
@@ -840,22 +847,30 @@ def mem_replace(ex, args, m):
 def mem_drop(ex, args): return UNIT
 
 
-@model(r'log::max_level|log::__private_api::loc|log::__private_api::enabled|log::__private_api::log(?:::<.*>)?|log::__private_api::log_impl')
+@model(r'(?:log::)?max_level|log::__private_api::loc|log::__private_api::enabled|log::__private_api::log(?:::<.*>)?|log::__private_api::log_impl')
 def log_any(ex, args):
     # logging is compiled in but switched off in the model: max_level() == Off
     return Enum('LevelFilter', 'Off')
 
 
-@model(r'<log::Level as PartialOrd<log::LevelFilter>>::(le|lt|ge|gt)|<log::LevelFilter as PartialOrd<log::Level>>::(le|lt|ge|gt)|<log::Level as PartialOrd>::(le|lt|ge|gt)')
+@model(r'<(?:log::)?Level(?:Filter)? as PartialOrd(?:<(?:log::)?Level(?:Filter)?>)?>::(le|lt|ge|gt)')
 def log_cmp(ex, args, m=None): return False
 
 
 @model(r'(?:std::fmt::|core::fmt::)?Arguments::<.*>::(new_const|new_v1|new_v1_formatted|from_str|new|from_str_nonconst)(?:::<.*>)?')
 def fmt_arguments(ex, args, m):
+    """fmt::Arguments as (template, argument list); the template is the byte-coded form of this nightly."""
     a0 = deref(args[0]) if args else None
-    if isinstance(a0, StrV): return Opaque('fmt', a0.concrete())
-    if isinstance(a0, VecV) and a0.ty == 'bytes': return Opaque('fmt', repr(bytes(a0.items)))
-    return Opaque('fmt', None)
+    tmpl = None
+    if isinstance(a0, StrV): tmpl = a0.concrete()
+    elif isinstance(a0, VecV): tmpl = bytes(x for x in a0.items if isinstance(x, int))
+    elif isinstance(a0, SliceV): tmpl = bytes(x for x in a0.elems() if isinstance(x, int))
+    fargs = []
+    if len(args) > 1:
+        a1 = deref(args[1])
+        items = a1.items if isinstance(a1, VecV) else (a1.elems() if isinstance(a1, SliceV) else [])
+        fargs = [x.data if isinstance(x, Opaque) else x for x in items]
+    return Opaque('fmt', (tmpl, fargs))
 
 
 @model(r'(?:core::fmt::rt::|std::fmt::)?Argument::<.*>::new_(display|debug|lower_hex)::<.*>')
@@ -866,6 +881,22 @@ def fmt_argument(ex, args, m): return Opaque('fmtarg', args[0])
 def fmt_format(ex, args):
     # message text is not interpreted unless a harness installs a string-level model
     return Opaque('formatted', args[0].data if isinstance(args[0], Opaque) else None)
+
+
+@model(r'(?:std::hint::|core::hint::)?must_use::<.*>')
+def hint_must_use(ex, args): return args[0]
+
+
+@model(r'<(?:u8|u16|u32|u64|usize|i32|i64|isize) as Default>::default')
+def int_default(ex, args): return 0
+
+
+@model(r'<bool as Default>::default')
+def bool_default(ex, args): return False
+
+
+@model(r'<(?:std::option::)?Option<.*> as Default>::default')
+def opt_default(ex, args): return none()
 
 
 # ------------------------------------------------------------------ derived trait models (structural)
@@ -1048,3 +1079,49 @@ def bool_not_model(ex, args): return simp(b_not(deref(args[0])))
 def vec_from_elem(ex, args):
     n = ex.concretize(args[1], 0, 1 << 20)
     return VecV([clone_val(args[0]) for _ in range(n)])
+
+
+@model(r'<&*(.+) as PartialOrd(?:<.*>)?>::(lt|le|gt|ge)')
+def generic_partial_ord(ex, args, m):
+    """default methods of PartialOrd through the type's own partial_cmp"""
+    from .engine import _dynamic_dispatch
+    a, b = args
+    # `<&T as PartialOrd>` compares through one more reference level
+    while isinstance(a, Ref) and isinstance(a.get(), Ref): a = a.get()
+    while isinstance(b, Ref) and isinstance(b.get(), Ref): b = b.get()
+    o = _dynamic_dispatch(ex, 'PartialOrd', 'partial_cmp', 'PartialOrd::partial_cmp')(ex, [a, b])
+    if o.var == 'None': return False
+    d = ex.discriminant(o.f[0])
+    k = m.group(2)
+    if is_sym(d): return simp({'lt': d < 0, 'le': d <= 0, 'gt': d > 0, 'ge': d >= 0}[k])
+    return {'lt': d < 0, 'le': d <= 0, 'gt': d > 0, 'ge': d >= 0}[k]
+
+
+@model(r'<(?:std::vec::)?Vec<.*> as Extend<.*>>::extend::<.*>')
+def vec_extend(ex, args):
+    v = vec_of(args[0]); v.items.extend(seq_of(ex, args[1])); return UNIT
+
+
+@model(r'(?:std::vec::)?Vec::<.*>::extend_from_slice')
+def vec_extend_from_slice(ex, args):
+    v = vec_of(args[0]); v.items.extend(clone_val(x) for x in as_slice(args[1]).elems()); return UNIT
+
+
+class UninitWrap:
+    """MaybeUninit<T> { uninit: (), value: ManuallyDrop<MaybeDangling<T>> }: three transparent layers over one cell."""
+    def __init__(self, cell, depth=3): self.cell = cell; self.depth = depth
+    def field(self, i):
+        if self.depth <= 1: return self.cell, 0
+        return [UninitWrap(self.cell, self.depth - 1)], 0
+    def clone(self): return self
+
+
+@model(r'(?:std::boxed::)?Box::<.*>::new_uninit')
+def box_new_uninit(ex, args): return BoxV(UninitWrap([None]))
+
+
+@model(r'(?:std::boxed::)?box_assume_init_into_vec_unsafe::<.*>')
+def box_into_vec(ex, args):
+    b = args[0]; w = b.f[0]
+    v = w.cell[0] if isinstance(w, UninitWrap) else w
+    return VecV(list(v.items))
